@@ -4,7 +4,7 @@ import json, os, re, shutil, subprocess, sys, tempfile
 from concurrent.futures import ThreadPoolExecutor
 RID = sys.argv[1]
 src = f'/tmp/wt_{RID}/out'
-ALL = ['C02','C03','C04','C05','C06','C07','C08','C09','C10','C11','C12','C13','C14','C15','C16','C17','C18','C19','C20']
+ALL = ['C01','C02','C03','C04','C05','C06','C07','C08','C09','C10','C11','C12','C13','C14','C15','C16','C17','C18','C19','C20']
 def sh(cmd, cwd=None, env=None):
     r = subprocess.run(cmd, cwd=cwd, env=env, capture_output=True, text=True)
     return r.returncode, r.stdout + r.stderr
